@@ -108,6 +108,7 @@ def prog_constants(p, j=1, max_hist=4, max_cmds=3, unlocked_bug=False, selfdep_p
     d['RmFiles'] = sset([s(x) for x in p.get('rm', [])])
     d['DoEdits'] = sset([s(x) for x in p.get('doedits', [])])
     d['TmpFiles'] = sset([s(x) for x in p.get('tmpfiles', [])])
+    d['Alias'] = fn([(s(k), s(v)) for k, v in p.get('alias', {}).items()])
     d['Links'] = fn([(s(k), seq([s(x) for x in v])) for k, v in p.get('links', {}).items()])
     d['NoDir'] = sset([s(x) for x in p.get('nodir', [])])
     d['MaxHist'] = str(max_hist)
@@ -527,6 +528,23 @@ def subdirs():
     }
 
 
+def alias_prog():
+    """one file, several spellings - on one command line, on successive command lines and inside a script: one record,
+    one lock, one build per run (C15)"""
+    return {
+        'name': 'alias',
+        'plain': ['s', 'a', 'b'],
+        'alias': {'./a': 'a', 'd/../a': 'a', './b': 'b', 'd/../b': 'b', './/b': 'b'},
+        'mkdirs': ['d'],
+        'rules': {'a.do': [{'a': [ifchange('./b', 'b'), out('stdout', 'b')]}],
+                  'b.do': [{'b': [ifchange('s'), out('stdout', 's')]}]},
+        'init': ['s', 'a.do', 'b.do'],
+        'cmds': [('ifchange', ['a', './a'], False), ('redo', ['./a', 'd/../a'], False, 2), ('ifchange', ['d/../b', './/b', 'a'], False)],
+        'user': ['s'], 'rm': ['b'], 'doedits': [],
+        'bounds': (4, 3),
+    }
+
+
 def symlink_prog():
     """a source that is a symbolic link: editing what it points to, and pointing it elsewhere, must rebuild its
     consumers (the stamp of a link is the link's own stamp plus the stamp of what it points to)"""
@@ -752,7 +770,7 @@ def crash_family(window=False, stamp_window=False):
     return out_
 
 
-FAMILY_DEEP = [fail_kinds, ifcreate_link, symlink_prog, symlink_stamped, nodir_prog, always2, fail_diamond, override2, stamp_toggle, stamped_deep, ifcreate_deep, do_recreate, subdirs, fan_shared, fail_memo]
+FAMILY_DEEP = [alias_prog, fail_kinds, ifcreate_link, symlink_prog, symlink_stamped, nodir_prog, always2, fail_diamond, override2, stamp_toggle, stamped_deep, ifcreate_deep, do_recreate, subdirs, fan_shared, fail_memo]
 
 
 def deep_programs():
